@@ -62,9 +62,9 @@ func (interp *Interpreter) SingleStepStateTransition(pc ProgramCounter) (ExitRea
 		return exitReason, newPC
 	}
 
-	if pc != newPC {
+	if pc != newPC || exitReason == exitContinueBranchToSelf {
 		// execute branch instruction
-		return exitReason, newPC
+		return ExitContinue, newPC
 	}
 
 	// iota' = iota + 1 +skip(iota)
@@ -136,7 +136,7 @@ func (interp *Interpreter) SingleStepInvokeDecodedBlocks(pc ProgramCounter) (Exi
 				return exitReason, instr.PC + ProgramCounter(instr.SkipLen) + 1
 			}
 
-			if instr.PC != newPC {
+			if instr.PC != newPC || exitReason == exitContinueBranchToSelf {
 				pc = newPC
 				branchTaken = true
 				break
